@@ -15,8 +15,9 @@ type outcome struct {
 	NonTrivial bool
 	Classes    []string
 	Sig        uint64
-	Err        error // violation
-	Inconcl    bool  // budget hit: neither pass nor violation
+	Err        error    // violation
+	Inconcl    bool     // budget hit: neither pass nor violation
+	Known      []string // listed known findings recognised in this case (the case is excluded by construction)
 }
 
 type propSpec[C any] struct {
@@ -24,6 +25,8 @@ type propSpec[C any] struct {
 	Assumptions      []string
 	Gen              func(*rapid.T) C
 	Run              func(C) outcome
+	// Enrich, if set, turns a failing case into its replay artefact (e.g. adds the recorded history).
+	Enrich func(C) C
 }
 
 var errInconclusive = errors.New("inconclusive")
@@ -44,6 +47,9 @@ func propMain[C any](t *testing.T, spec propSpec[C]) {
 		}
 		for attempt := 0; attempt < 20; attempt++ {
 			o := spec.Run(f.Case)
+			for _, k := range o.Known {
+				vh.KnownFindingLine(spec.Prop, knownFindings[spec.Prop][k]+" [recogniser "+k+"]")
+			}
 			if o.Err != nil {
 				vh.ReportViolationAt(spec.Prop, spec.Test, p)
 				t.Fatalf("%s: %v", spec.Prop, o.Err)
@@ -54,8 +60,14 @@ func propMain[C any](t *testing.T, spec propSpec[C]) {
 	ev := vh.NewEvid(spec.Prop, spec.Test, spec.Rule, spec.Assumptions...)
 	var lastFail *C
 	var lastMsg string
+	knownSeen := map[string]int{}
 	defer func() {
 		failed := t.Failed()
+		for name, n := range knownSeen {
+			if n > 0 {
+				vh.KnownFindingLine(spec.Prop, knownFindings[spec.Prop][name]+" [recogniser "+name+"]")
+			}
+		}
 		if failed && lastFail != nil {
 			vh.ReportViolation(spec.Prop, spec.Test, lastFail, lastMsg)
 		}
@@ -68,9 +80,17 @@ func propMain[C any](t *testing.T, spec propSpec[C]) {
 			ev.Inconclusive()
 			return
 		}
+		for _, k := range o.Known {
+			knownSeen[k]++
+			ev.Known(k)
+			ev.Excluded(k)
+		}
 		ev.Case(o.Sig, o.NonTrivial, o.Classes, func() any { return c })
 		if o.Err != nil {
 			cc := c
+			if spec.Enrich != nil {
+				cc = spec.Enrich(c)
+			}
 			lastFail, lastMsg = &cc, o.Err.Error()
 			rt.Fatalf("%s: %v", spec.Prop, o.Err)
 		}
